@@ -57,3 +57,18 @@ Theorem C20_integral_term_is_integral : forall J a mlim i lo hi, 0 < lo -> lo <=
           (snd (kint_piece (O:=R_ops J) a mlim i lo hi)).
 Proof. exact kint_term_is_integral. Qed.
 Print Assumptions C20_integral_term_is_integral.
+
+(* over the WHOLE domain the loop visits every piece with its own limits and the zeroth moment it returns
+   is exactly one: integral() agrees with the normalisation of eval(), any number of pieces, any exponents *)
+Theorem C20_integral_full_range_is_one : forall J a mlim, valid_kroupa a mlim ->
+  fst (kint_loop J a mlim (nth 0 mlim 0) (last mlim 0) (seq 0 (length a)) (0, 0)) = 1.
+Proof. exact kint_full_range. Qed.
+Print Assumptions C20_integral_full_range_is_one.
+
+(* and the method itself, asked for the whole domain [mlim[0], mlim[-1]], takes exactly that loop
+   (imin = 0 by the first search, imax = the last index by the xmax == mlim[-1] special case) *)
+Theorem C20_integral_full_range_is_loop : forall J a mlim, valid_kroupa a mlim ->
+  kintegral (O:=R_ops J) a mlim (nth 0 mlim 0) (last mlim 0) =
+  Ok (kint_loop J a mlim (nth 0 mlim 0) (last mlim 0) (seq 0 (length a)) (0, 0)).
+Proof. exact kintegral_full_range. Qed.
+Print Assumptions C20_integral_full_range_is_loop.
